@@ -19,7 +19,8 @@ Pool == [Zeta |-> <<"zz", "aa", "mm">>, Alpha |-> <<"b1", "a2">>, Mid |-> <<"onl
          Beta |-> <<"q", "p", "r", "o", "s">>, Nil |-> <<>>,
          TB |-> <<"tb1">>, Ta |-> <<"ta2", "ta1">>,
          \* methods with attributes: vo_* is #[vtbl_only] (a vtable slot like any other), sk_* is #[skip_func] (not exported)
-         Attr |-> <<"n1", "vo_a", "n2", "sk_b", "n3", "vo_c", "n4">>,
+         \* ws_* has a default body and `where Self: Sized` (no generic parameter): a vtable slot like any other
+         Attr |-> <<"n1", "vo_a", "n2", "sk_b", "n3", "vo_c", "ws_d", "n4">>,
          \* associated types (ty_*) declared between the methods: they are not slots, and they do not move the slots
          Ty |-> <<"open", "close", "ty_id", "ident", "reset">>,
          Ty2 |-> <<"ty_w", "b1x", "ty_x", "b2x", "b3x", "b4x", "ty_y", "b5x", "ty_z">>]
